@@ -926,6 +926,17 @@ def m_split(m, c, a):
     return IterV('own', [Cell(StrRef(RStr(p))) for p in parts])
 
 
+@model('str::split_whitespace', 'str::split_ascii_whitespace')
+def m_split_whitespace(m, c, a):
+    parts, cur = [], []
+    for ch in as_rstr(a[0]).chars:
+        if char_in(m, ch, WS):
+            if cur: parts.append(cur); cur = []
+        else: cur.append(ch)
+    if cur: parts.append(cur)
+    return IterV('own', [Cell(StrRef(RStr(p))) for p in parts])
+
+
 @model('str::to_uppercase')
 def m_upper(m, c, a):
     return RStr([ch.upper() if isinstance(ch, str) else ch for ch in as_rstr(a[0]).chars])
